@@ -11,6 +11,7 @@ package main
 
 import (
 	"bytes"
+	"crypto/md5"
 	"encoding/json"
 	"fmt"
 	"os"
@@ -496,14 +497,17 @@ func main() {
 	}
 	overlay := os.Getenv("VERIF_OVERLAY")
 	cli := filepath.Join(ev.Root, ".bin", "origami-cli-c16")
+	if repo != "/repo" { // a scratch worktree gets its own CLI binary (same tag as vcheck uses; tools/trymutant.sh removes it)
+		cli += fmt.Sprintf(".%x", md5.Sum([]byte(repo+"\n")))[:9]
+	}
 	if o, err := sh(repo, []string{"GOFLAGS=-mod=mod", "GOPROXY=off"}, "go", "build", "-o", cli, "."); err != nil {
 		c.HarnessError("building the CLI failed: %s", lastLines(o, 10))
 		c.Finish(1, 1, 0, "setup failed")
 	}
 	var items []item
-	hb := hbound{depth: 2, legacyDepth: 1}
+	hb := hbound{depth: 2, legacyDepth: 1, names: hnamesQuick}
 	if !c.Quick() {
-		hb = hbound{depth: 3, legacyDepth: 2, touch: true}
+		hb = hbound{depth: 3, legacyDepth: 2, touchSteps: 2, names: append(append([]string(nil), hnamesQuick...), hnamesMore...)}
 	}
 	var ho histOut
 	var hwg sync.WaitGroup
@@ -526,7 +530,10 @@ func main() {
 		hwg.Add(1)
 		go func() {
 			defer hwg.Done()
-			ho = runHistories(nil, hb, cli, repo, overlay, 6)
+			if os.Getenv("C16_ONLY") == "progs" { // development aid: the program families alone
+				return
+			}
+			ho = runHistories(nil, hb, cli, repo, overlay, map[bool]int{true: 6, false: 8}[c.Quick()])
 		}()
 	}
 	per := 64
@@ -559,6 +566,16 @@ func main() {
 		c.NotExhaustive(fmt.Sprintf("%d distinct output directories that differ from a fresh compile were not built (cap %d)", ho.capped, maxSuspectClasses))
 	}
 	histories := judgeHistories(c, ho)
+	if os.Getenv("C16_DEBUG") != "" {
+		seen := map[string]int{}
+		for _, r := range ho.results {
+			if r.OkH && r.OkF && !r.Same {
+				if seen[r.Diff]++; seen[r.Diff] <= 2 {
+					fmt.Println("DIFF", r.H.String(), "=>", r.Diff)
+				}
+			}
+		}
+	}
 	for i, r := range ho.results {
 		if len(r.H.Ops) == 2 && i%97 == 0 {
 			c.Sample(map[string]any{"history": r.H.String(), "final_sources": r.State, "accepted": r.OkH, "identical_to_fresh_compile": r.Same})
@@ -631,11 +648,12 @@ func main() {
 	}
 	c.Set("histories", histories)
 	c.Set("history_depth", hb.depth)
+	c.Set("history_wall_s_enumerate_then_build_and_run", []float64{ho.enumWall, ho.behWall})
 	c.Set("history_compile_invocations", ho.compiles)
 	c.Set("history_distinct_output_dirs_built_and_run", len(ho.beh))
 	c.Set("history_distinct_output_dirs_equal_to_fresh", nsame)
 	c.Assume("history layer: sources are four fixed files with three revisions each; mtimes are set explicitly (older / unchanged / equal to the generated file / one second newer); the generated go.mod is replaced by the harness's module; the scratch root inside EntryPath is relocated when a directory is built")
-	if c.Replay == "" && (histories < 100 || nsame < 10) {
+	if c.Replay == "" && os.Getenv("C16_ONLY") != "progs" && (histories < 100 || nsame < 10) {
 		c.HarnessError("vacuous: history layer ran %d histories over %d project states", histories, nsame)
 	}
 	if compared < 10 && c.Replay == "" && os.Getenv("C16_ONLY") != "hist" {
